@@ -13,6 +13,7 @@ import YalafiVerif.Model.Expander
 import YalafiVerif.Proofs.GenRepl
 import YalafiVerif.Proofs.PlainMacro
 import YalafiVerif.Generated.Init
+import YalafiVerif.Properties.PlainMacroArgsStmt
 namespace Yalafi
 
 theorem C09_genRepl_nil (arguments : List (List Tok)) (start : Nat) :
